@@ -2677,7 +2677,20 @@ func (m *Msg) hasAlt() bool {
 // References:
 //   - https://datatracker.ietf.org/doc/html/rfc2046#section-5.1.3
 func (m *Msg) hasMixed() bool {
-	return m.pgptype == 0 && (((len(m.parts) > 0 || len(m.embeds) > 0) && len(m.attachments) > 0) || len(m.attachments) > 1)
+	return m.pgptype == 0 && (((m.hasContentParts() || len(m.embeds) > 0) && len(m.attachments) > 0) || len(m.attachments) > 1)
+}
+
+// hasContentParts returns true if the Msg has at least one part that is not an S/MIME signature part.
+//
+// The signature part is appended to the parts of the Msg when it is signed. It is not content of the
+// signed entity and must not influence its multipart structure.
+func (m *Msg) hasContentParts() bool {
+	for _, part := range m.parts {
+		if !part.smime {
+			return true
+		}
+	}
+	return false
 }
 
 // hasSMIME determines if the Msg should be signed with S/MIME.
@@ -2712,7 +2725,7 @@ func (m *Msg) isSMIMEInProgress() bool {
 // References:
 //   - https://datatracker.ietf.org/doc/html/rfc2387
 func (m *Msg) hasRelated() bool {
-	return m.pgptype == 0 && ((len(m.parts) > 0 && len(m.embeds) > 0) || len(m.embeds) > 1)
+	return m.pgptype == 0 && ((m.hasContentParts() && len(m.embeds) > 0) || len(m.embeds) > 1)
 }
 
 // hasPGPType returns true if the Msg should be treated as a PGP-encoded message.
